@@ -200,6 +200,13 @@ def run(repo, gendir, builddir):
         m = re.search(r"canBeInNumber\(c\)\s*&&\s*n\s*<\s*(\d+)\s*\)", jd)
         C.append("(* parseNumericValue: `while (canBeInNumber(c) && n < K)` — K read from the source text; -1 = not of that form any more *)")
         C.append(f"Definition gen_number_token_limit : Z := {m.group(1) if m else '(-1)'}.")
+        sbh = open(os.path.join(repo, "src", "ArduinoJson", "Memory", "StringBuilder.hpp"), errors="replace").read()
+        m1 = re.search(r"initialCapacity\s*=\s*(\d+)\s*;", sbh)
+        m2 = re.search(r"resizeString\(node_,\s*size_\s*\*\s*(\d+)U?\s*\+\s*(\d+)\)", sbh)
+        C.append("(* StringBuilder: `initialCapacity = K` and the growth step `resizeString(node_, size_ * A + B)` read from the source text; -1 = not of that form any more *)")
+        C.append(f"Definition gen_sb_initial_capacity : Z := {m1.group(1) if m1 else '(-1)'}.")
+        C.append(f"Definition gen_sb_growth_mul : Z := {m2.group(1) if m2 else '(-1)'}.")
+        C.append(f"Definition gen_sb_growth_add : Z := {m2.group(2) if m2 else '(-1)'}.")
         new_cfg = "\n".join(C) + "\n"
         inv = _inventory(repo, builddir)
         G = ["(* GENERATED by tools/translate.py from /repo — do not edit *)",
